@@ -25,6 +25,7 @@ import Rtp.Model.Audio
 import Rtp.Model.VP8
 import Rtp.Model.VP9
 import Rtp.Model.H264
+import Rtp.Pred.C10
 namespace Rtp.Model.Pipeline
 open Rtp Rtp.Model
 
@@ -173,5 +174,69 @@ def vp9Pay : Pay VP9Pay := fun st b x => vp9Payload st b (some x)
 
 /-- `codecs.VP9Packet.Unmarshal` on one reused receiver -/
 def vp9Depack : Depack VP9Packet := fun r p => vp9Unmarshal r (some p)
+
+/-! ### H264 frames as lists of NAL units (the form C10 quantifies over) -/
+
+/-- one access unit handed to `Packetize`: NAL units behind 3- or 4-byte start codes, or one bare
+    unit; with the sample count and clock reading of the call -/
+structure H264Frame where
+  bare : Bool := false
+  units : List (Bool × Bytes)     -- (4-byte start code?, NAL unit)
+  samples : UInt32 := 0
+  now : Int64 := 0
+  deriving DecidableEq, Repr
+
+namespace H264Frame
+open Rtp.Pred
+
+/-- the call of C10 that hands this frame to a payloader with MTU `B` -/
+def call (B : UInt16) (fr : H264Frame) : C10.RtCall := { mtu := B, bare := fr.bare, units := fr.units }
+
+/-- the bytes handed to `Packetize` -/
+def buffer (fr : H264Frame) : Bytes := (fr.call 0).buffer
+
+def frameIn (fr : H264Frame) : FrameIn := { frame := fr.buffer, samples := fr.samples, now := fr.now }
+
+/-- C10's hypotheses on one frame (units of type 1–23, ≥ 2 bytes, F = 0, no start code inside, no
+    trailing zero; a bare buffer is exactly one unit) and at least one unit -/
+def WF (fr : H264Frame) : Prop :=
+  fr.units ≠ [] ∧ (fr.bare = true → fr.units.length = 1) ∧ ∀ u ∈ fr.units, Spec.Rfc6184.nalWF u.2 = true
+
+/-- the same, executable (for the driver and the examples) -/
+def wf (fr : H264Frame) : Bool :=
+  !fr.units.isEmpty && (!fr.bare || fr.units.length == 1) && fr.units.all (fun u => Spec.Rfc6184.nalWF u.2)
+
+end H264Frame
+
+/-- the NAL units of a list of frames, in order -/
+def h264Nals (frames : List H264Frame) : List Bytes := frames.flatMap (fun fr => fr.units.map (·.2))
+
+/-- what the receiver must hand back over a whole history: the units C10 says are `delivered`
+    (AUD and filler dropped, SPS / PPS released in front of the next unit), each behind a 4-byte
+    start code (Annex-B) or a 4-byte length (AVC) -/
+def h264Expected (disable avc : Bool) (frames : List H264Frame) : Bytes :=
+  Spec.Rfc6184.frame avc (Spec.Rfc6184.delivered disable (h264Nals frames))
+
+/-! ### the pipelines, instantiated (what the kinds `e2e.*` recompute) -/
+
+/-- G.711 / G.722 -/
+def runG711 (pk : Packetizer) (fs : List FrameIn) : List FrameObs :=
+  run g711Pay rawDepack { pk := pk, st := () } () fs
+
+def runOpus (pk : Packetizer) (fs : List FrameIn) : List FrameObs :=
+  run opusPay opusDepack { pk := pk, st := () } () fs
+
+/-- a VP8Payloader that has packetized `k` frames: running picture id `k mod 2^15` -/
+def vp8State (enable : Bool) (k : Nat) : VP8Pay := { enablePictureID := enable, pictureID := (k % 32768).toUInt16 }
+
+def runVP8 (enable : Bool) (k : Nat) (pk : Packetizer) (r : VP8Packet) (fs : List FrameIn) : List FrameObs :=
+  run vp8Pay vp8Depack { pk := pk, st := vp8State enable k } r fs
+
+def runVP9 (st : VP9Pay) (pk : Packetizer) (r : VP9Packet) (fs : List FrameIn) : List FrameObs :=
+  run vp9Pay vp9Depack { pk := pk, st := st } r fs
+
+/-- a new H264Payloader; `buf` = what the receiver's fragment buffer holds -/
+def runH264 (disable avc : Bool) (pk : Packetizer) (buf : Bytes) (fs : List FrameIn) : List FrameObs :=
+  run (h264Pay disable) (h264Depack avc) { pk := pk, st := {} } buf fs
 
 end Rtp.Model.Pipeline
